@@ -306,8 +306,9 @@ def selftest(ctx, traces, accepted):
     muts["close-before-last-line-offered"] = recs[:fwd[-1]] + [recs[tc]] + \
         [r for j, r in enumerate(recs[fwd[-1]:], fwd[-1]) if j != tc]                            # lines closed too early
     ex = [j for j, r in enumerate(recs) if r["ev"] == "vm.exit"][0]
-    muts["vm-exit-before-its-last-line"] = recs[:starts[-1]] + [recs[ex]] + \
-        [r for j, r in enumerate(recs[starts[-1]:], starts[-1]) if j != ex]
+    mine = [j for j in starts if recs[j]["p"] == recs[ex]["p"]]       # that program's own last line
+    muts["vm-exit-before-its-last-line"] = recs[:mine[-1]] + [recs[ex]] + \
+        [r for j, r in enumerate(recs[mine[-1]:], mine[-1]) if j != ex]
     muts["drop-tail-close"] = [r for r in recs if r["ev"] != "tail.close"]                     # lines never closed
     acc, _ = validate(ctx, {k: reorder(v) for k, v in muts.items()}, label="selftest")
     wrongly = sorted(a for a in acc if a != "control-unmodified")
@@ -370,14 +371,24 @@ def run(ctx):
     out = _par([lambda s=s, pl=pl, k=k: run_proc(ctx, pl[0], s, pl[1], pl[2], "s%d-g%d%s" % (k, pl[1], "-race" if pl[2] else ""))
                 for k, (s, pl) in enumerate(zip(shards, plan))], width=min(vlib.NCPU, 8))
     results, races, crashes = {}, [], []
-    for r, crash, rc in out:
+    for k, (r, crash, rc) in enumerate(out):
         results.update(r)
         races += rc
         if crash:
-            crashes.append(crash)
-    if crashes:
-        # the server's own code panicked: re-execute the shard once to confirm
-        ctx.violation({"crash": crashes[0]}, "mtail panicked during a one-shot run: %s" % crashes[0].splitlines()[0])
+            crashes.append((k, crash))
+    for k, crash in crashes[:2]:
+        # the server's own code panicked: re-execute that shard from a clean start to confirm
+        again = [c for c in shards[k] if c["id"] not in results or not results[c["id"]].get("returned")] or shards[k]
+        crash2 = None
+        for t in range(3):
+            _r, crash2, _ = run_proc(ctx, plan[k][0], shards[k], plan[k][1], plan[k][2], "recrash%d-%d" % (k, t))
+            if crash2:
+                break
+        if crash2:
+            ctx.violation({"cases_in_flight": again[:3], "crash": crash, "crash_on_reexecution": crash2},
+                          "mtail panicked during a one-shot run: %s" % crash.splitlines()[0])
+        else:
+            raise vlib.InfraError("a harness process died from a panic inside mtail that did not reproduce:\n" + crash)
     missing = [i for i in cases if i not in results]
     # cases after a timed-out run in the same process were not executed: run them now
     if missing and not crashes:
